@@ -11,7 +11,8 @@ correspondence run of `./check C13`; the reference is compared with the Rust ind
 
 Modelled programs: `local` (several names, values optional), multiple assignment, `local function`,
 `function f`, closures with parameters, numeric and generic `for`, `while`, `repeat … until`, `do`,
-`if … else`, calls; every list may be empty or contain duplicates.
+`if … else`, calls, `local x <const>`, `function a.b:c()` / `function a.b.c()` (implicit `self`); `...` and `self`
+are names like any other for the lookup; every list may be empty or contain duplicates.
 -/
 namespace Scope
 
@@ -87,6 +88,18 @@ example : implementation [.locl [0] [.lit], .repeat_ [] (.call 2 [.func [0] [], 
 /-- `x = 1; function x() end; z(x)` — globals stay global -/
 example : implementation [.assign [0] [.lit], .funcStat 0 [] [], .callS 2 [.name 0]]
     = [(2, none), (10, none), (18, none), (22, none)] := by decide
+
+/-- `function x:m0(y) z(self, y, x) end` — `self` is the implicit parameter declared at the `:`; `x` an ordinary use -/
+example : implementation [.locl [0] [.lit], .method 0 1 true [1] [.callS 2 [.name selfName, .name 1, .name 0]]]
+    = [(12, some 4), (24, none), (28, some 14), (30, some 20), (32, some 4)] := by decide
+example : reference [.locl [0] [.lit], .method 0 1 true [1] [.callS 2 [.name selfName, .name 1, .name 0]]]
+    = [(12, some 4), (24, none), (28, some 14), (30, some 20), (32, some 4)] := by decide
+
+/-- `function x.m0() z(self) end` — no implicit `self` without the colon -/
+example : implementation [.method 0 1 false [] [.callS 2 [.name selfName]]] = [(4, none), (14, none), (18, none)] := by decide
+
+/-- `local x <const> = x; z(x)` — the initialiser sees the outer (here global) `x` -/
+example : implementation [.loclAttr 0 (.name 0), .callS 2 [.name 0]] = [(14, none), (16, none), (20, some 4)] := by decide
 
 end Examples
 
